@@ -60,7 +60,7 @@ ASSUMPTIONS = [
     "lookup result and yields",
     "a request that calls ctx.close_session() is considered to have stopped dispatching against the session at that call",
 ]
-SHARDS = {"quick": 1, "thorough": 16}
+SHARDS = {"quick": 2, "thorough": 16}
 TECHNIQUE = ("schedule fuzzing: Hypothesis-drawn thread schedules and clock jumps on a deterministic cooperative scheduler "
              "over the real sticky WSGI app; event-history monitor for per-session dispatch/close exclusion")
 LEVEL_TEXT = ("Generated-schedule exploration of 2–3 same-session requests racing DELETE, in-method close, reaper ticks, TTL "
@@ -118,11 +118,20 @@ def _cases(trace: str) -> Any:
         admin = draw(st.sampled_from([[], [], [], ["shutdown"], ["drain"], ["drain", "shutdown"]]))
         n = nreq + bool(dels) + bool(reaper) + bool(admin)
         if trace == "lines":
-            lens = st.one_of(st.integers(1, 8), st.integers(8, 60), st.integers(40, 160))
-            schedule = draw(st.one_of(_runs(n, lens, 14), _runs(n, lens, 8), _pct(n, 900)))
+            lens = st.one_of(st.integers(1, 8), st.integers(8, 40), st.integers(25, 60), st.integers(40, 120))
+            schedule = draw(st.one_of(_runs(n, lens, 24, 4), _runs(n, lens, 12), _pct(n, 700)))
         else:
             schedule = draw(st.one_of(_runs(n, st.integers(1, 4), 20, 5), _runs(n, st.integers(1, 7), 16, 3),
                                       _runs(n, st.integers(1, 12), 10), _pct(n, 90)))
+        if draw(st.sampled_from([True, True, True, False])):  # mostly: a request thread gets to move first
+            if schedule["mode"] == "runs":
+                for seg in schedule["runs"][:2]:
+                    seg[0] %= nreq
+            else:
+                prio = schedule["prio"]
+                top = prio.index(max(prio))
+                if top >= nreq:
+                    prio[top], prio[top % nreq] = prio[top % nreq], prio[top]
         return {"ttl": ttl, "reqs": reqs, "dels": dels, "reaper": reaper, "admin": admin,
                 "close_yields": draw(st.sampled_from([0, 1, 1, 2])),
                 "close_raises": draw(st.sampled_from([False] * 5 + [True])),
